@@ -89,7 +89,26 @@ class _Bus:
         self.sent.append(msg)
 
 
+def _build(cfg):
+    import odxtools.isotp_state_machine  # noqa
+    import odxtools.cli.snoop  # noqa  (before the shims are installed)
+    return None
+
+
 def run_hist(sx, cfg, env):
+    if cfg.get("verbose"):
+        # the snoop tool's verbose decoder (prints; uses can_rx_id(idx) in its callbacks)
+        import contextlib
+        import io
+        import odxtools.cli.snoop as snoop
+        import odxtools.isotp_state_machine as iso
+        with contextlib.redirect_stdout(io.StringIO()):
+            if cfg.get("active"):
+                sm = snoop.init_verbose_state_machine(iso.IsoTpActiveDecoder, _Bus(), [RX], [0x7E0],
+                                                      padding_size=8)
+            else:
+                sm = snoop.init_verbose_state_machine(iso.IsoTpStateMachine, [RX])
+            return _run_hist(sx, cfg, sm)
     if cfg.get("active"):
         import odxtools.isotp_state_machine as iso
         sm = iso.IsoTpActiveDecoder(_Bus(), [RX], [0x7E0], padding_size=cfg.get("padding", 0))
@@ -157,7 +176,7 @@ def run_recover(sx, cfg, env):
 
 
 HARNESSES = {
-    "hist": {"build": lambda cfg: None, "run": run_hist, "width": 32,
+    "hist": {"build": _build, "run": run_hist, "width": 32,
              "must_cover": ["ref:single", "ref:first", "ref:empty", "ref:other",
                             "require:telegram-content"],
              "limits": {"quick": explore.Limits(max_paths=60000, wall_s=900),
@@ -192,6 +211,12 @@ def configs(tier, seed):
                  list(itertools.product([2, 8], repeat=3))):
         out.append({"id": "active-hist/" + "-".join(map(str, lens)), "harness": "hist",
                     "lens": list(lens), "active": True, "padding": 8})
+    for lens in ([(8,), (1,), (8, 8), (2, 8)] if tier == "quick" else
+                 [(a,) for a in range(9)] + list(itertools.product([0, 1, 2, 8], repeat=2))):
+        for act in (False, True):
+            out.append({"id": f"verbose-hist/{'active' if act else 'passive'}/" +
+                        "-".join(map(str, lens)), "harness": "hist", "lens": list(lens),
+                        "verbose": True, "active": act})
     for m in ms:
         for fl in flens:
             out.append({"id": f"step/m{m}/f{fl}", "harness": "step", "m": m, "flen": fl})
